@@ -64,13 +64,14 @@ Definition run_dep (p : plat) (meth : string) : jv :=
   | _ => JL [jnone; jnone]
   end.
 
-(* front end: one raw NIC row.  prefix = Some p when the mask is the p-bit netmask; octets = the MAC split at the separator *)
+(* front end: one raw NIC row.  prefix = Some k when the mask text denotes the k-bit prefix (either form);
+   octets = the MAC split at the separator *)
 Definition run_nic (p : plat) (r : nicrow) (prefix : option Z) (octets : list bytes) : jv :=
   JL [ JL [JB (post_addr p r); jopt JZ (post_bcast p r)];
        JL [ (if n_fam r =? 2 then JB (spec_mac (match p with Windows => 45 | _ => 58 end) octets) else JB (n_addr r));
             match p, prefix with
             | Windows, Some k => if n_fam r =? 0 then JZ (spec_bcast 32 (n_addrz r) k)
-                                 else if n_fam r =? 1 then JC "Any" [] else jopt JZ (n_bcast r)
+                                 else if n_fam r =? 1 then JZ (spec_bcast 128 (n_addrz r) k) else jopt JZ (n_bcast r)
             | Windows, None => if (n_fam r =? 0) || (n_fam r =? 1) then JC "Any" [] else jopt JZ (n_bcast r)
             | _, _ => jopt JZ (n_bcast r)
             end ] ].
@@ -97,4 +98,12 @@ Definition run_tables : jv :=
        jbool (forallb srow_ok status_rows && sblocks_complete status_rows ladder_blocks status_blocks);
        JL (map (fun b => JL [jstr (pb_meth b); jstr (pb_site1 b)]) (filter (fun b => negb (pblock_ok b)) pair_blocks));
        JL (map (fun r => JL [jstr (rr_meth r); JZ (rr_k r)]) (filter (fun r => negb (rrow_ok r)) retry_rows));
-       jbool (forallb wrow_ok wait_rows && wrows_complete wait_rows && pblocks_complete pair_blocks) ].
+       jbool (forallb wrow_ok wait_rows && wrows_complete wait_rows && pblocks_complete pair_blocks);
+       JL (map (fun r => JL [jstr (sf_fn r); JL (map jstr (sf_fields r))]) (filter (fun r => negb (sfrow_ok r)) sysfield_rows));
+       jbool (sfrows_complete sysfield_rows) ].
+
+(* named tuple of a system-wide function on a platform: probed field list, documented field list *)
+Definition run_sysfields (p : plat) (fn : string) : jv :=
+  JL [ match find (fun r => plat_eqb (sf_plat r) p && String.eqb (sf_fn r) fn) sysfield_rows with
+       | Some r => JL (map jstr (sf_fields r)) | None => JC "NoRow" [] end;
+       JL (map jstr (doc_sys_fields p fn)) ].
